@@ -27,7 +27,7 @@ CTXS = [[], [], [], [], [], [], [], [], ["numpy.einsum"], ["numpy.numpylike"], [
 # ------------------------------------------------------------------------------------------------
 # pool of descriptors (a pure function of the master seed and the pool size)
 # ------------------------------------------------------------------------------------------------
-ALIAS_KINDS = ["space", "kworder", "kw-float", "kw-npint", "kw-npfloat", "kw-bool", "kw-0d-int", "kw-0d-float", "kw-seq-tuple", "kw-seq-array", "kw-seq-array-float", "neighbour", "tensor-factory", "tensor-factory-varkw", "tensor-factory-name", "tensor-dtype", "tensor-scalar", "graph-toggle", "backend-name"]
+ALIAS_KINDS = ["space", "kworder", "kw-float", "kw-npint", "kw-npfloat", "kw-bool", "kw-0d-int", "kw-0d-float", "kw-seq-tuple", "kw-seq-array", "kw-seq-array-float", "kw-singleton-list", "kw-seq-nested", "neighbour", "tensor-factory", "tensor-factory-varkw", "tensor-factory-name", "tensor-dtype", "tensor-scalar", "graph-toggle", "backend-name"]
 
 
 def applicable_alias_kinds(d):
@@ -46,8 +46,10 @@ def applicable_alias_kinds(d):
             out.append("kw-bool")
     if num_kw:
         out.append("neighbour")
+    if int_kw:
+        out.append("kw-singleton-list")  # 3 vs [3]: same bytes, different meaning (a size vs the sizes of an ellipsis axis)
     if any(isinstance(v, list) for v in d["kw"].values()):
-        out += ["kw-seq-tuple", "kw-seq-array", "kw-seq-array-float"]
+        out += ["kw-seq-tuple", "kw-seq-array", "kw-seq-array-float", "kw-seq-nested"]
     nd = [t for t in d["tensors"] if "shape" in t]
     if nd:
         out += ["tensor-factory", "tensor-factory-varkw", "tensor-factory-name", "tensor-dtype"]
@@ -72,6 +74,12 @@ def make_alias(r, d, kind):
         if list(dict(items)) == list(d["kw"]):
             items = items[::-1]
         d["kw"] = dict(items)
+    elif kind == "kw-singleton-list":
+        k = r.choice(int_kw)
+        d["kw"][k] = [d["kw"][k]]
+    elif kind == "kw-seq-nested":
+        k = r.choice(sorted(k for k, v in d["kw"].items() if isinstance(v, list)))
+        d["kw"][k] = [list(d["kw"][k])]
     elif kind.startswith("kw-seq"):
         k = r.choice(sorted(k for k, v in d["kw"].items() if isinstance(v, list)))
         v = d["kw"][k]
@@ -136,6 +144,12 @@ def gen_pool(master, size):
                 d["desc"] = ", ".join(d["desc"].split(" -> ")[0].split(", ")[:2]) + ((" -> " + d["desc"].split(" -> ")[1]) if " -> " in d["desc"] else "")
                 if name == "el_axpy" and r.random() < 0.7:
                     d["kw"]["alpha"] = r.choice([1, 2, 3, -1, -2, 0.0, -0.0, -2.0])
+        elif fam < 0.22:
+            d = workload.gen_call(r, "solve")  # solve_axes / solve_shapes / matches are named by the property: keep them frequent
+            if r.random() < 0.5 and d["kw"]:
+                pass
+            elif r.random() < 0.5:
+                d["kw"]["zz"] = r.choice([2, 3])  # a size for an axis the description does not use
         else:
             d = workload.gen_call(r)
         if d.get("_axes") and r.random() < 0.45:  # redundant (consistent) size keywords: more keyword values for the cache key to get wrong
